@@ -44,6 +44,43 @@ char *strndup(const char *s, size_t n)
 	p[l] = '\0';
 	return p;
 }
+
+#ifdef ENV_MEMCPY_STUB
+/* checking memcpy (DESIGN 2.4): proves the bounds of every call site, then
+ * transfers one arbitrary witness byte; the rest of the destination keeps
+ * whatever it held (unconstrained for a fresh allocation) */
+void *memcpy(void *dst, const void *src, size_t n)
+{
+	size_t k;
+
+	VERIF_ASSERT(VERIF_R_OK(src, n) && VERIF_W_OK(dst, n),
+		     "C07.memcpy.bounds");
+	k = verif_nd_size("memcpy.k");
+	if (k < n)
+		((char *)dst)[k] = ((const char *)src)[k];
+	return dst;
+}
+#endif
+
+/* sys/sysmacros.h: glibc's encoding of dev_t (no body in CBMC) */
+unsigned int gnu_dev_major(unsigned long dev)
+{
+	return (unsigned int)(((dev >> 8) & 0xfffu) |
+			      ((dev >> 32) & 0xfffff000u));
+}
+
+unsigned int gnu_dev_minor(unsigned long dev)
+{
+	return (unsigned int)((dev & 0xffu) | ((dev >> 12) & 0xffffff00u));
+}
+
+unsigned long gnu_dev_makedev(unsigned int maj, unsigned int min)
+{
+	return (((unsigned long)(maj & 0x00000fffu)) << 8) |
+	       (((unsigned long)(maj & 0xfffff000u)) << 32) |
+	       (((unsigned long)(min & 0x000000ffu)) << 0) |
+	       (((unsigned long)(min & 0xffffff00u)) << 12);
+}
 #endif
 
 /* diagnostics: no effect on the state we reason about */
